@@ -375,19 +375,31 @@ def canon_tables(tables: List[List[str]]) -> List[str]:
 
 def kf_mp_join_after_upload(plan: Optional[dict], fw: str) -> bool:
     """MULTIPROCESSING, a compute framework other than PyArrow, and a join step whose LEFT object (the object the join
-    writes) was uploaded before the join: a feature-group step the join waits for, running on that object, holds a requested
-    feature.  ComputeFramework.upload_table replaces cfw.data by its Arrow conversion; JoinStep._merge_data then hands a
-    pyarrow Table to the framework's merge engine."""
+    writes) can have been uploaded before the join runs: a feature-group step that holds a requested feature, runs on that
+    object and does not (transitively) wait for the join.  ComputeFramework.upload_table replaces cfw.data by its Arrow
+    conversion; JoinStep._merge_data then hands a pyarrow Table to the framework's merge engine.  (Whether the upload really
+    precedes the join may depend on the schedule when the two steps are unordered: both outcomes are accepted there.)"""
     if plan is None or fw == "arrow":
         return False
     foot = {int(k): v for k, v in plan["foot"].items()}
-    prod = {u: st for st in plan["steps"] for u in st["uuids"]}
+    prod = {u: st["sid"] for st in plan["steps"] for u in st["uuids"]}
+    direct = {st["sid"]: {prod[u] for u in st["req"] if u in prod} for st in plan["steps"]}
+
+    def waits_for(i: int) -> set:
+        acc: set = set()
+        todo = [i]
+        while todo:
+            for y in direct.get(todo.pop(), ()):
+                if y not in acc:
+                    acc.add(y)
+                    todo.append(y)
+        return acc
     for j in plan["steps"]:
         if j["kind"] != "JOIN" or j["sid"] not in foot:
             continue
-        for u in j["req"]:
-            st = prod.get(u)
-            if st is not None and st["kind"] == "FG" and st["requested"] and foot.get(st["sid"], [None])[0] == foot[j["sid"]][0]:
+        for st in plan["steps"]:
+            if st["kind"] == "FG" and st["requested"] and foot.get(st["sid"], [None])[0] == foot[j["sid"]][0] \
+                    and j["sid"] not in waits_for(st["sid"]):
                 return True
     return False
 
@@ -728,6 +740,7 @@ def run(rep: vlib.Reporter, tier: str, seed: int) -> None:
         pm["in_conflict_domain"] += int(bool(sib) and bool(sib.get("conflict_x" if c["mode"] == "MULTIPROCESSING" else "conflict")))
         pm["in_mp_join_domain"] += int(kf_mp_join_after_upload(plan, cfg["fw"]))
         pm["identify_calls"] += len(c["calls"])
+        pm["timeouts_not_reproduced_on_retry"] = pm.get("timeouts_not_reproduced_on_retry", 0) + int(c.get("timeouts", 0) == 1)
         if len(c["req"]) >= 2:
             rep.nontrivial(("m", c["cfg"], c["req"], c["ordering"], c["mode"]))
         if c["exc"] is not None:
